@@ -153,13 +153,18 @@ def misuse(ctx):
     core, fd, lim, fb, ex = (repo.module(m) for m in ('core', 'finite_difference', 'limits', 'fornberg', 'extrapolation'))
     # multicomplex n >= 3
     for n in range(3, 11):
+      # (every class that accepts n: the rule classes of Jacobian / Gradient may override what n means)
+      for cls, dim in (('Derivative', None), ('Jacobian', 2), ('Gradient', 2)):
+        if cls != 'Derivative' and n > 4 and ctx.tier == 'quick':
+            continue
         P = Pipeline(repo)
 
-        def thunk(P=P, n=n):
-            obj, x = P.build('Derivative', 'multicomplex', 2, n=n, step=P.sym_generator('Min'))
+        def thunk(P=P, n=n, cls=cls, dim=dim):
+            obj, x = P.build(cls, 'multicomplex', 2, n=n, dim=dim, step=P.sym_generator('Min'))
             return estimates(P.interp, obj, x)
         expect_value_error(rep, 'R-MISUSE', 'finite_difference.LogRule._multicomplex_middle_name', fd.relpath,
-                           'Derivative(method=multicomplex, n=%d)' % n, thunk, 'multicomplex n>2')
+                           '%s(method=multicomplex, n=%d)' % (cls, n), thunk, 'multicomplex n>2')
+      if True:
         P2 = Pipeline(repo)
 
         def thunk2(P2=P2, n=n):
@@ -300,10 +305,14 @@ def misuse(ctx):
     # unknown path
     Lim = I.get_global('limits', 'Limit')
     Cg = I.get_global('limits', 'CStepGenerator')
-    expect_value_error(rep, 'R-MISUSE', 'limits.CStepGenerator._check_path', lim.relpath, 'Limit(path=zigzag)',
-                       lambda: Lim(lambda z: z, path='zigzag'), 'unknown path')
-    expect_value_error(rep, 'R-MISUSE', 'limits.CStepGenerator._check_path', lim.relpath, 'CStepGenerator(path=Radial-ish)',
-                       lambda: Cg(path='circle'), 'unknown path')
+    # (names that differ from the two valid ones in any way: another word, a valid name as a prefix / in another case / padded,
+    # its first letter, the empty string)
+    for bogus in ('zigzag', 'circle', 'straight', 'random', 'rectangular', 'sideways', 'Spiral', 'RADIAL', 'radial ', ' spiral',
+                  'r', 's', 'spiral2', ''):
+        expect_value_error(rep, 'R-MISUSE', 'limits.CStepGenerator._check_path', lim.relpath, 'Limit(path=%r)' % bogus,
+                           lambda bogus=bogus: Lim(lambda z: z, path=bogus), 'unknown path')
+        expect_value_error(rep, 'R-MISUSE', 'limits.CStepGenerator._check_path', lim.relpath, 'CStepGenerator(path=%r)' % bogus,
+                           lambda bogus=bogus: Cg(path=bogus), 'unknown path')
 
 
 def _n(shape):
